@@ -173,6 +173,22 @@ def r4_text_helpers(ctx):
             raise Unrecognised(f"{sp.where}: separator mask is built in an unknown form: {u(d)}")
         ctx.ob(sp.where, "split compares the (encoded) sequence with the separator through the encoded `==`, which encodes the separator with the sequence's own encoding; "
                "comparing raw codes with character ordinals finds nothing in an alphabet-encoded sequence", okd, u(d), key="C07-R4|split-encoded-compare")
+    rs = ix.func("bionumpy.util.ragged_slice", "ragged_slice")
+    arr = rs.params[0]
+    env_rs = local_env(rs.node)
+    rets_rs = [r for r in body_walk(rs.node) if isinstance(r, ast.Return)]
+    want_rs = sym.canon(sym.parse_expr(f"EncodedRaggedArray(EncodedArray(nps.ragged_slice({arr}.ravel(), {rs.params[1]}, {rs.params[2]}).ravel(), {arr}.encoding), "
+                                       f"nps.ragged_slice({arr}.ravel(), {rs.params[1]}, {rs.params[2]}).shape)"))
+    if len(rets_rs) == 1 and sym.canon(rets_rs[0].value, env_rs) == want_rs:
+        ctx.ob(rs.where, "ragged_slice cuts [start, end) out of the flattened text with npstructures' slicer (whose omitted bounds are the start / END OF THE DATA) and keeps the encoding",
+               True, "", key="C07-R4|ragged-slice")
+    else:
+        rows = [x for x in ast.walk(rs.node) if (isinstance(x, ast.Call) and u(x.func) == "len" and x.args and u(x.args[0]) == arr) or
+                (isinstance(x, ast.Subscript) and u(x.value) == f"{arr}.shape")]
+        if rows:
+            ctx.ob(rs.where, "positions in the flattened text are never bounded by the number of ROWS of the ragged array", False, "; ".join(u(x) for x in rows), key="C07-R4|ragged-slice")
+        else:
+            raise Unrecognised(f"{rs.where}: ragged_slice no longer delegates to npstructures' slicer on the flattened text")
     sa = ix.func("bionumpy.string_array", "string_array")
     g = CFG(sa.node)
     p0 = sa.params[0]
